@@ -88,19 +88,15 @@ func c02r1(c *Check) {
 			c.Hold(name+" gate", c.AtFn(fn), fmt.Sprintf("%d paths, %d rejecting", len(paths), nInvalid))
 		}
 		// bad.Add arguments: (name, line copy, err)
-		allInstrs(fn, func(in ssa.Instruction) {
-			if !isCallNamed(in, nBadAdd) {
-				return
-			}
-			cc := callCommon(in)
-			args := argsOf(cc)
+		for _, ba := range badAddSites(c.P, fn) {
+			in, args := ba.at, ba.args
 			_, isKey := callOf(args[0], nValidatePacket)
 			ex, _ := args[0].(*ssa.Extract)
 			okName := isKey && ex != nil && ex.Index == 0
 			_, okErr1 := callOf(args[2], nValidatePacket)
 			_, okErr2 := callOf(args[2], nOrdered)
 			c.Judge(okName && (okErr1 || okErr2), name+" bad.Add(name, line, reason)", c.At(in), "reported under the parsed name with the validation error", "the bad-metrics report is not fed with the parsed name and the error that caused the rejection")
-		})
+		}
 	}
 }
 
